@@ -701,6 +701,7 @@ fn norm_trace_entry(g: &[String]) -> String {
         "c" => format!("c {}", g[1]),
         "f" => format!("f {} {}", g[1], g[2]),
         "u" => "c %".into(),
+        "us" => "c $".into(),
         _ => format!("?{:?}", g),
     }
 }
